@@ -93,8 +93,15 @@ class Gen:
             return g.call_function(F.linear, (h, self.param(8, 8)), {"bias": self.param(8)})
         if k == "matmul":
             return g.call_function(torch.matmul, (h, self.param(8, 8)))
-        if k == "conv1d":
-            return g.call_function(F.conv1d, (h, self.param(4, 4, 1)))
+        if k == "conv1d":     # the styles torch.nn.Conv1d and users produce: bare, keyword ints, positional 1-tuples (nn.Conv1d), padding
+            st = r.choice(["bare", "kw_int", "tuples", "tuples_pad"])
+            if st == "bare":
+                return g.call_function(F.conv1d, (h, self.param(4, 4, 1)))
+            if st == "kw_int":
+                return g.call_function(F.conv1d, (h, self.param(4, 4, 1)), {"stride": 1, "padding": 0})
+            if st == "tuples":
+                return g.call_function(F.conv1d, (h, self.param(4, 4, 1), None, (1,), (0,), (1,), 1))
+            return g.call_function(F.conv1d, (h, self.param(4, 4, 3), self.param(4), (1,), (1,), (1,), 1))
         if k == "sdpa":
             return g.call_function(F.scaled_dot_product_attention, (h, h, h))
         if k == "tanh":
@@ -126,12 +133,23 @@ class Gen:
     def residual(self, skip: fx.Node, depth: int) -> fx.Node:
         b = self.unary(skip)
         b = self.chain(b, depth) if self.rng.random() < 0.6 and self.budget > 0 else b
-        form = self.rng.choice(["add_sb", "add_bs", "iadd_bs"])
+        # every way of writing the addition: a + b (both orders), a += b, torch.add(a, b), a.add(b), a.add_(b)
+        form = self.rng.choice(["add_sb", "add_bs", "iadd_bs", "tadd_sb", "tadd_bs", "madd_bs", "madd__bs", "madd_sb"])
         self.budget -= 1
         if form == "add_sb":
             return self.g.call_function(operator.add, (skip, b))
         if form == "add_bs":
             return self.g.call_function(operator.add, (b, skip))
+        if form == "tadd_sb":
+            return self.g.call_function(torch.add, (skip, b))
+        if form == "tadd_bs":
+            return self.g.call_function(torch.add, (b, skip))
+        if form == "madd_bs":
+            return self.g.call_method("add", (b, skip))
+        if form == "madd_sb":
+            return self.g.call_method("add", (skip, b))
+        if form == "madd__bs":
+            return self.g.call_method("add_", (b, skip))
         return self.g.call_function(operator.iadd, (b, skip))
 
     def build(self, n_ops: int) -> Tuple[fx.GraphModule, List[torch.Tensor]]:
@@ -145,7 +163,9 @@ class Gen:
             h = self.unary(self.x)
         elif start == "plain_sum":   # skip tensor produced by a plain add of two independent tensors
             y = g.placeholder("y")
-            h = g.call_function(operator.add, (self.unary(self.x), g.call_function(torch.tanh, (y,))))
+            a_, b_ = self.unary(self.x), g.call_function(torch.tanh, (y,))
+            pf = r.choice(["op", "torch", "method"])
+            h = g.call_function(operator.add, (a_, b_)) if pf == "op" else (g.call_function(torch.add, (a_, b_)) if pf == "torch" else g.call_method("add", (a_, b_)))
             self.budget -= 2
         elif start == "towers":      # residual blocks on PARALLEL branches (a DAG, not a chain), combined afterwards
             y = g.placeholder("y")
@@ -231,12 +251,19 @@ class Block(nn.Module):
         self.act = nn.GELU()
         self.fc2 = nn.Linear(16, 8)
         self.sm = nn.Softmax(dim=-1)
+        self.conv = nn.Conv1d(4, 4, 3, padding=1)
 
     def forward(self, x):
-        if self.kind % 3 == 0:
+        if self.kind % 5 in (3, 4):
+            pass
+        elif self.kind % 3 == 0:
             return x + self.fc2(self.act(self.fc1(self.ln(x))))
-        if self.kind % 3 == 1:
+        elif self.kind % 3 == 1:
             return self.fc2(self.sm(self.fc1(x))) + x        # softmax on the branch -> tau 0.01
+        if self.kind % 5 == 3:
+            return torch.add(x, self.fc2(self.act(self.fc1(x))))             # function form of the residual add
+        if self.kind % 5 == 4:
+            return self.conv(x).add(x)                                        # method form; nn.Conv1d passes 1-tuples
         h = self.fc2(self.act(self.fc1(x)))
         h += x                                               # in-place residual add
         return h
@@ -374,7 +401,7 @@ def run(rep: Report, tier: str) -> None:
         t = graph_case(rng.randrange(1 << 30))
         traces.append(t)
         rep.case(("graph", i), nontrivial=sum(1 for n in t["g"] if n["tgt"] in ("op.add", "op.iadd")) >= 1)
-    traces += dynamo_traces(rep, rng, [0, 1, 2] if quick else list(range(8)))
+    traces += dynamo_traces(rep, rng, [0, 1, 2, 3, 4] if quick else list(range(10)))
     judge(rep, traces)
     rep.extra["library_torch_map"] = lib
     rep.rule = "random well-nested graphs of 1-16 ops (0-4 nested residual blocks; skip = input / residual output / plain sum; plain adds incl. after the last residual; scalar and in-place adds; user replacements in 35%) through the real backend + a module family through unit_scale()/TorchDynamo; non-trivial = graphs with at least one add"
